@@ -93,6 +93,24 @@ def run(out: common.Outcome, explore: int = 0) -> None:
     recs = recs + L.select(lpool, out.seed + 1, out.tier, 100)
     l2pool = [_json.loads(l) for l in (_Path(__file__).resolve().parent / "pool" / "L2.jsonl").read_text().splitlines() if l.strip()]
     recs = recs + L.select(l2pool, out.seed + 4, out.tier, 60)      # "bunched" loop exits: the continuing branch begins with a fork
+    # fragment-F definitions in which a loop body ENDS with a nested loop (some with a break branch); rare in pool F, so a
+    # dedicated frozen pool harness/pool/T.jsonl, each member certified inF_b in coqc on every run
+    tpool = [_json.loads(l) for l in (_Path(__file__).resolve().parent / "pool" / "T.jsonl").read_text().splitlines() if l.strip()]
+    trecs = L.select(tpool, out.seed + 6, out.tier, 40)
+    recs = recs + trecs
+    not_in_f = []
+    if okp:
+        rows_t = []
+        for r in trecs:
+            inter = P.Interner()
+            rows_t.append(P.coq_diagram(r["d"], inter))
+        okc, o = common.coq_eval("C07inF", "From Coq Require Import List PArith Bool Arith. Import ListNotations.\n"
+                                 "From V Require Import Puml.Ast Puml.Exec Puml.FragmentF.\nOpen Scope positive_scope.\n"
+                                 "Definition ds : list diagram := [\n " + ";\n ".join(rows_t) + "].\n"
+                                 "Definition idx {A} (f : A -> bool) (l : list A) : list nat := map fst (filter (fun p => negb (f (snd p))) (combine (seq 0 (length l)) l)).\n"
+                                 "Eval vm_compute in (1%nat, idx (fun d => inF_b d && wf d) ds).\n")
+        l = common.parse_nat_list(o, "1") if okc else None
+        not_in_f = ["certification failed: " + o[-300:]] if l is None else [trecs[i]["id"] for i in l]
     recs = recs + [r for r in L.load_corpus_pool() if has_loop(r["d"])]      # the loop cases of the corpus
     variants = (0, 4) if quick else (0, 1, 4, 5)
     items = []
@@ -161,6 +179,8 @@ Eval vm_compute in map (fun c => let '(i, s, inp, n) := c in
             n_viol += 1
             out.violation(dict(kind=kind, key=key, definition=P.show(it["rec"]["d"]), definition_id=it["rec"]["id"], variant=it["variant"],
                                detect_loops_result=it["res"], checks=dict(zip(names, verdicts.get(i, [])))))
+    if not_in_f and not out.violations:
+        out.violation({"kind": "pool-definition-not-in-F", "ids": not_in_f[:5]}, no_failing_input=True)
     if okp and coq_fail and not out.violations:
         out.violation({"kind": "certificate-evaluation-failed", "coq_failures": coq_fail[:2]}, no_failing_input=True)
     nested = sum(1 for it in items if "ok" in it["res"] and any(v["subs"] for v in it["res"]["ok"]["nest"]["subs"].values()))
@@ -170,7 +190,7 @@ Eval vm_compute in map (fun c => let '(i, s, inp, n) := c in
         "exhaustive": False, "definitions": len(recs), "loop_bearing_pool": len(pool), "detect_loops_calls": len(items),
         "results_with_nested_loops": nested, "failure_kinds": kinds, "failing_keys": failing,
         "evaluations": len(items), "distinct_nontrivial": len({it["rec"]["id"] for it in items}),
-        "rule": "loop-bearing definitions of the frozen F pool (nested loops, breaks, forks inside loops) plus 100 (thorough: 300) definitions of the frozen loop-rich pool L (break branches containing loops/forks, two loops after one event - the corpus' loop-case shapes), complete job set with loops run "
+        "rule": "loop-bearing definitions of the frozen F pool (nested loops, breaks, forks inside loops) plus 100 (thorough: 300) definitions of the frozen loop-rich pool L (break branches containing loops/forks, two loops after one event - the corpus' loop-case shapes), 40 (thorough: 80) definitions of the frozen pool T (fragment F, a loop body ending in a nested loop; certified inF_b on every run), complete job set with loops run "
                 "once and twice, presentation/hash-seed variants; graph built exactly as pv_to_puml_string does",
         "trusted_base": common.std_trusted_base(["export of networkx graphs and LoopEvent.sub_graph to Coq terms (node ids per level, "
                                                  "labels: observed type / loop node / dummy)"]),
